@@ -59,8 +59,8 @@ SCENARIOS = [
     ('find+add', BASE, edit_add, 'make'),
     ('find+script', BASE, edit_script, 'make'),
     ('pkg+script', PKG, edit_script, 'make'),
-    ('rules+remove', RULES, edit_remove, 'make'),
     ('find+add/ninja', BASE, edit_add, 'ninja'),
+    ('rules+remove', RULES, edit_remove, 'make'),
     ('pkg+remove', PKG, edit_remove, 'make'),
     ('rules+script/ninja', RULES, edit_script, 'ninja'),
     ('pkg+script/ninja', PKG, edit_script, 'ninja'),
@@ -75,6 +75,9 @@ ACTION = {('open', '.bfg_environ'): 'EnvOpen',
           ('open', 'Makefile'): 'MkOpen', ('close', 'Makefile'): 'MkClose',
           ('open', 'build.ninja'): 'MkOpen',
           ('close', 'build.ninja'): 'MkClose',
+          ('open', 'build.ninja.tmp'): 'MkOpen',
+          ('close', 'build.ninja.tmp'): 'MkClose',
+          ('replace', 'build.ninja'): 'MkRename',
           ('utime', 'Makefile'): 'Touch', ('utime', 'build.ninja'): 'Touch'}
 
 
@@ -84,7 +87,9 @@ def conformance_traces(name, order):
     acts = [(i + 1, ACTION[(op, f)]) for i, (op, f, side) in enumerate(order)
             if side == 'post' and (op, f) in ACTION]
     out = [{'what': '%s:full' % name, 'acts': [a for _, a in acts]}]
-    last = max([k for k, a in acts if a in ('MkClose', 'Touch')] or [0])
+    fin = ('MkRename', 'Touch') if any(a == 'MkRename' for _, a in acts) \
+        else ('MkClose', 'Touch')
+    last = max([k for k, a in acts if a in fin] or [0])
     for k in range(1, len(order) + 1):
         if last and k >= last:
             break                      # the modelled part of the run is over
@@ -221,32 +226,45 @@ def main(argv):
     ck = Check('C10', argv)
     # 1. design model: which crash windows end in a silent stale success?
     cfg = ('CONSTANTS Names = {%s} MaxClock = %d AllowCrash = TRUE '
-           'MaxEdits = %d Fixed = %s\nSPECIFICATION Spec\nCONSTRAINT Bound\n'
+           'MaxEdits = %d Fixed = %s Backend = "%s" AtomicMk = %s\n'
+           'SPECIFICATION Spec\nCONSTRAINT Bound\n'
            'CONSTRAINT BaseExists\nINVARIANT Report\nINVARIANT Converges\n'
            'CHECK_DEADLOCK FALSE\n')
     big = ('"a"', 20, 1) if ck.quick else ('"a", "b"', 36, 2)
-    r = tlc_ok('Regen', cfg % (big + ('TRUE',)))
-    windows = sorted({p[1] for p in r.prints if isinstance(p, list) and
-                      p and p[0] == 'VIOL'})
-    ck.add_model(r, 'Regen design model of the repaired algorithm, %d '
-                 'edit(s), one crash at any point' % big[2])
-    ck.note('design_model_stale_windows', windows)
-    if windows or r.invariant_violated:
-        ck.report('C10:design:stale-window:' + '+'.join(windows),
-                  'the design model of the current algorithm has a crash '
-                  'window that ends in a silent stale success: %s\n%s' %
-                  (windows, r.tail(30)))
-    # vacuity guard: the pinned tree's algorithm must show its two windows
-    r0 = tlc_ok('Regen', cfg % ('"a"', 18, 1, 'FALSE'))
-    w0 = sorted({p[1] for p in r0.prints if isinstance(p, list) and
-                 p and p[0] == 'VIOL'})
+
+    def windows_of(args):
+        r = tlc_ok('Regen', cfg % args)
+        return r, sorted({p[1] for p in r.prints if isinstance(p, list) and
+                          p and p[0] == 'VIOL'})
+    # the current algorithm under both backends: Make (build file truncated
+    # in place, a truncated Makefile fails visibly) and Ninja (build file
+    # renamed into place; an empty manifest would be "nothing to do")
+    for backend, atomic in (('make', 'FALSE'), ('ninja', 'TRUE')):
+        r, windows = windows_of(big + ('TRUE', backend, atomic))
+        ck.add_model(r, 'Regen design model of the repaired algorithm (%s), '
+                     '%d edit(s), one crash at any point' % (backend, big[2]))
+        ck.note('design_model_stale_windows_' + backend, windows)
+        if windows or r.invariant_violated:
+            ck.report('C10:design:stale-window:%s:%s' % (
+                backend, '+'.join(windows)),
+                'the design model of the current algorithm has a crash '
+                'window that ends in a silent stale success: %s\n%s' %
+                (windows, r.tail(30)))
+    # vacuity guards: the pinned tree's algorithm must show its two windows,
+    # and the pinned Ninja writer (truncating in place) its own
+    r0, w0 = windows_of(('"a"', 18, 1, 'FALSE', 'make', 'FALSE'))
     ck.note('design_model_stale_windows_of_pinned_algorithm', w0)
     if w0 != ['deps_close', 'mk_open']:
         ck.machinery('vacuity guard: the model of the pinned algorithm '
                      'shows windows %r' % w0)
+    r1, w1 = windows_of(('"a"', 18, 1, 'TRUE', 'ninja', 'FALSE'))
+    ck.note('design_model_stale_windows_of_pinned_ninja_writer', w1)
+    if w1 != ['mk_close']:
+        ck.machinery('vacuity guard: the model of the truncating Ninja '
+                     'writer shows windows %r' % w1)
 
     # 2. fault enumeration on the real code
-    scs = SCENARIOS[:4] if ck.quick else SCENARIOS
+    scs = SCENARIOS[:5] if ck.quick else SCENARIOS
     modes = ['kill', 'enospc']
     results = pmap(lambda sc: run_scenario(sc, modes, ck.quick), scs, jobs=8)
     raises = pmap(raise_scenario, scs[:2] if ck.quick else scs, jobs=8)
@@ -260,10 +278,24 @@ def main(argv):
     for i, c in enumerate(conf):
         c['id'] = i + 1
     ccfg = ('CONSTANTS Names = {"a"} MaxClock = 40 AllowCrash = TRUE '
-            'MaxEdits = 2 Fixed = TRUE\nSPECIFICATION ConfSpec\n'
+            'MaxEdits = 2 Fixed = TRUE Backend = "%s" AtomicMk = %s\n'
+            'SPECIFICATION ConfSpec\n'
             'CONSTRAINT Bound\nINVARIANT Explained\nCHECK_DEADLOCK FALSE\n')
-    acc, _, rc = validate('Regen_Conf', ccfg, [
-        {'id': c['id'], 'acts': c['acts']} for c in conf], workers=8)
+    acc = set()
+    rc = None
+    for backend, atomic in (('make', 'FALSE'), ('ninja', 'TRUE')):
+        part = [c for c in conf if ('/ninja' in c['what']) ==
+                (backend == 'ninja')]
+        if not part:
+            continue
+        a, _, r_ = validate('Regen_Conf', ccfg % (backend, atomic), [
+            {'id': c['id'], 'acts': c['acts']} for c in part], workers=8)
+        acc |= set(a)
+        if rc is None:
+            rc = r_
+        else:
+            rc.distinct += r_.distinct
+            rc.generated += r_.generated
     unexplained = [c['what'] for c in conf if c['id'] not in acc]
     ck.drift = len(unexplained)
     ck.states += rc.distinct
